@@ -866,3 +866,171 @@ def pair8d_reversal_keeps_shown_key(P, R, L, rule="PAIR-8"):
             "from the `direction == Backward` edge to find_next_client_entry no key is stored into cached_user_key",
             "ok (direction edges %d, other stores %d)" % (len(e), len(stores)) if ok else
             ("cached_user_key is overwritten on the reversal path (line %s)" % bad[0] if bad else "helper sites %d, direction edges %d" % (len(hs), len(e))))
+
+
+# ------------------------------------------------------------------------------------------- SEP-1 a shortened index key is used only when it is shorter AND larger
+SEP_FUNCTIONS = ["<&key::InternalKey as utils::bytes::BinarySeparable>::find_shortest_separator",
+                 "<&key::InternalKey as utils::bytes::BinarySeparable>::find_shortest_successor"]
+
+
+def sep1_shortened_key_is_guarded(P, R, L, rule="SEP-1"):
+    """The InternalKey-level separator / successor (the keys of a table's index entries, PAIR-13) replace the last key of a block by
+    `shortened user key @ MAX_SEQUENCE_NUMBER` only when the byte-level helper really produced something shorter AND larger than the
+    user key; otherwise they return the key itself.  (For an empty or all-0xff user key, or when one key is a prefix of the other,
+    the byte-level helper returns its input: the same user key at MAX_SEQUENCE_NUMBER sorts BEFORE the last key of the block, and an
+    index key below its block makes seeks and point lookups skip the block.)  Decided: the `new_for_seeking` call lies behind the
+    true edges of both tests - `len(shortened) < len(user key)` and `user key < shortened`."""
+    n = 0
+    for fn in SEP_FUNCTIONS:
+        b = P.body(fn)
+        if b is None:
+            R.missing_anchor(rule, fn)
+            continue
+        R.analysed(b)
+        n += 1
+        mk = [c for c in b.calls() if not b.is_cleanup(c.bb) and (c.name or "").endswith("InternalKey::new_for_seeking")]
+        is_len = lambda os_: bool(os_) and all(o.kind == "call" and _last(o.name) == "len" for o in os_)
+        helper = "find_shortest_separator" if fn.endswith("separator") else "find_shortest_successor"
+        from_helper = lambda os_: any(o.kind == "call" and _last(o.name) == helper for o in os_)
+        from_key = lambda os_: any(o.kind == "call" and _last(o.name) == "get_user_key" for o in os_) and not from_helper(os_)
+        shorter, larger = [], []
+        for c in comparisons(b):
+            lo, ro = c.lhs_origins(), c.rhs_origins()
+            if is_len(lo) and is_len(ro):
+                # len(shortened) < len(user key): which side is which is told by the receiver of len()
+                l_h = any(from_helper(follow(b, o.site.args[0], through=("deref", "as_slice", "as_ref"))) for o in lo if o.site is not None)
+                r_h = any(from_helper(follow(b, o.site.args[0], through=("deref", "as_slice", "as_ref"))) for o in ro if o.site is not None)
+                if l_h and not r_h and c.op == "lt":
+                    shorter += [(c.bb, t) for t in c.true_t]
+                elif r_h and not l_h and c.op == "gt":
+                    shorter += [(c.bb, t) for t in c.true_t]
+                elif l_h and not r_h and c.op == "ge":
+                    shorter += [(c.bb, t) for t in c.false_t]
+                elif r_h and not l_h and c.op == "le":
+                    shorter += [(c.bb, t) for t in c.false_t]
+            else:
+                lk, rk = from_key(follow(b, c.lhs, through=("deref",))), from_key(follow(b, c.rhs, through=("deref",)))
+                lh, rh = from_helper(follow(b, c.lhs, through=("deref", "as_slice"))), from_helper(follow(b, c.rhs, through=("deref", "as_slice")))
+                if lk and rh and c.op == "lt":
+                    larger += [(c.bb, t) for t in c.true_t]
+                elif lh and rk and c.op == "gt":
+                    larger += [(c.bb, t) for t in c.true_t]
+                elif lk and rh and c.op == "ge":
+                    larger += [(c.bb, t) for t in c.false_t]
+                elif lh and rk and c.op == "le":
+                    larger += [(c.bb, t) for t in c.false_t]
+        ok = bool(mk) and bool(shorter) and bool(larger) and all(b.must_pass(c.bb, through_edges=shorter) and b.must_pass(c.bb, through_edges=larger) for c in mk)
+        R.check(rule, fn + "|shortened-key-only-when-shorter-and-larger", ok, where(b),
+                "InternalKey::new_for_seeking(shortened user key, ..) is reached only over `len(shortened) < len(user key)` and `user key < shortened`",
+                "ok" if ok else "constructor sites %d, `shorter` edges %d, `larger` edges %d" % (len(mk), len(shorter), len(larger)))
+    R.floor(rule, "InternalKey-level separator functions checked", n, 2)
+
+
+# ------------------------------------------------------------------------------------------- LVL-2 the base-level scan starts two levels below the compaction level
+def _level_plus(P, b, op, depth=6):
+    """(constant, base) if the operand is `<compaction level> + constant` (through helpers that add to the level), else None"""
+    if op.get("k") == "const":
+        return None
+    os_ = origins(b, op)
+    if not os_:
+        return None
+    res = set()
+    for o in os_:
+        if o.kind == "binop" and o.name in ("Add", "AddWithOverflow", "AddUnchecked") and o.extra is not None:
+            ops = o.extra[1]["rv"]["ops"]
+            consts = [x for x in ops if x.get("k") == "const"]
+            others = [x for x in ops if x.get("k") != "const"]
+            if len(consts) == 1 and len(others) == 1 and depth > 0:
+                inner = _level_plus(P, b, others[0], depth - 1)
+                if inner is None:
+                    return None
+                res.add((inner[0] + int(consts[0].get("val")), inner[1]))
+            else:
+                return None
+        elif o.kind == "call" and (o.name or "").endswith("CompactionManifest::level"):
+            res.add((0, "level"))
+        elif o.kind == "call" and o.site is not None and depth > 0 and P.bodies.get(o.site.t.get("resolved") or "") is not None and \
+                "CompactionManifest" in (o.name or ""):
+            h = P.bodies[o.site.t["resolved"]]
+            inner = _level_plus(P, h, {"k": "copy", "pl": {"l": 0, "p": []}}, depth - 1)
+            if inner is None:
+                return None
+            res.add(inner)
+        elif o.kind == "param" and "level" in o.path:
+            res.add((0, "level"))
+        else:
+            return None
+    return res.pop() if len(res) == 1 else None
+
+
+def lvl2_base_level_scan_start(P, R, L, rule="LVL-2"):
+    """CompactionManifest::is_base_level_for_key answers "does any level BELOW the output level hold this user key": the output level
+    is `level + 1`, so the scan over the levels starts at exactly `level + 2` (however the expression is spelled: `self.level() + 2`,
+    `self.output_level() + 1`).  Starting one level further down skips the grandparent level: a tombstone is dropped while the value it
+    hides sits right there."""
+    fn = "compaction::manifest::CompactionManifest::is_base_level_for_key"
+    b = P.body(fn)
+    if b is None:
+        return R.missing_anchor(rule, fn)
+    R.analysed(b)
+    starts = []
+    for bb in range(b.n):
+        if b.is_cleanup(bb):
+            continue
+        for st in b.blocks[bb]["stmts"]:
+            if st["k"] == "assign" and st["rv"]["k"] == "aggregate" and (st["rv"].get("adt") or "").endswith("ops::Range") and len(st["rv"]["ops"]) == 2:
+                starts.append((st["rv"]["ops"][0], st.get("line")))
+    vals = [(_level_plus(P, b, op), ln) for (op, ln) in starts]
+    ok = len(vals) == 1 and vals[0][0] == (2, "level")
+    R.check(rule, fn + "|scan-starts-at-level-plus-two", ok, where(b),
+            "the range over the deeper levels starts at <compaction level> + 2", "ok" if ok else "range starts: %s" % vals)
+
+
+# ------------------------------------------------------------------------------------------- ROLE-3 (snapshot) a file is written into the manifest snapshot under the level it sits at
+BAD_BEFORE_ENUMERATE = ("filter", "filter_map", "skip", "skip_while", "take_while", "step_by", "rev", "chain", "flat_map", "flatten", "peekable_skip")
+
+
+def role3_snapshot_levels(P, R, L, rule="ROLE-3"):
+    """VersionSet::write_snapshot re-creates the current version in a fresh manifest: every file is recorded with
+    `add_file(level, ..)` where `level` is the position of its list in `Version::files`.  Decided: the level argument is the
+    variable of a range loop over the levels, or the index of an `enumerate()` whose source is the plain list of levels - an adapter
+    that drops or reorders elements in front of the `enumerate` (filter out the empty levels, skip, rev) renumbers the levels: after
+    the next reopen a level-2 table is reported (and searched, and compacted) as level 0."""
+    fn = "versioning::version_set::VersionSet::write_snapshot"
+    b = P.body(fn)
+    if b is None:
+        return R.missing_anchor(rule, fn)
+    R.analysed(b)
+    adds = [c for c in b.calls() if not b.is_cleanup(c.bb) and (c.name or "").endswith("VersionChangeManifest::add_file")]
+    ok, found = bool(adds), "no add_file call"
+    for c in adds:
+        os_ = origins(b, c.args[1])
+        names = [o.name or "" for o in os_ if o.kind == "call"]
+        from_range = any("ops::Range" in n and _last(n) == "next" for n in names) or any("range::" in n and _last(n) == "next" for n in names)
+        from_enum = any("Enumerate" in n and _last(n) == "next" for n in names)
+        if from_range:
+            found = "ok (range loop variable)"
+            continue
+        if from_enum:
+            bad = []
+            for e in b.calls():
+                if b.is_cleanup(e.bb) or _last(e.name) != "enumerate" or not e.args:
+                    continue
+                chain, todo = [], [e.args[0]]
+                for _ in range(8):
+                    nxt = []
+                    for op in todo:
+                        for o in origins(b, op):
+                            if o.kind == "call" and o.site is not None and o.site.args:
+                                chain.append(_last(o.name))
+                                nxt.append(o.site.args[0])
+                    todo = nxt
+                bad += [x for x in chain if x in BAD_BEFORE_ENUMERATE]
+            if bad:
+                ok, found = False, "the level is the index of an enumerate() behind %s" % sorted(set(bad))
+            else:
+                found = "ok (enumerate over the plain list of levels)"
+            continue
+        ok, found = False, "the level argument derives from %s" % os_[:3]
+    R.check(rule, fn + "|snapshot-level-is-the-position-in-the-version", ok, where(b),
+            "add_file's level is a range-loop variable over the levels or the index of an enumerate() over the unfiltered list of levels", found)
